@@ -250,6 +250,31 @@ def F4():
         shutil.rmtree(root, ignore_errors=True)
 
 
+def F16():
+    root = tempfile.mkdtemp(prefix='bt_triage_')
+    try:
+        _pkg(root, 'wq', m4="""
+            _ = 'user value'
+            type A = list[Undefined695] | int
+            after = _
+            names = sorted(n for n in globals() if not n.startswith('__'))
+        """)
+        prog = """
+            import sys
+            if sys.argv[1] == 'hook':
+                from beartype.claw import beartype_package
+                beartype_package('wq')
+            from wq import m4
+            print(repr(m4.after)[:24], m4.names)
+        """
+        plain = _run(prog, root, 'nohook')
+        hooked = _run(prog, root, 'hook')
+        ok = plain.startswith("'user value'") and not hooked.startswith("'user value'") and 'Undefined695' in hooked
+        return _say('F16', ok, f'unhooked: {plain} | hooked: {hooked}')
+    finally:
+        shutil.rmtree(root, ignore_errors=True)
+
+
 def F11():
     root = tempfile.mkdtemp(prefix='bt_triage_')
     try:
@@ -322,7 +347,7 @@ ALL = {
     'F1': F1, 'F2': F2, 'F3': F3, 'F4': F4, 'F5': F5_F6, 'F6': F5_F6, 'F7': F7,
     'F8': F1,  # F8 is the exception class observed in F1
     'F9': F9_F12, 'F10': F10, 'F11': F11, 'F12a': F9_F12, 'F12b': F9_F12,
-    'F13': F13, 'F14a': F14, 'F14b': F14, 'F14c': F14, 'F15a': F15, 'F15b': F15,
+    'F13': F13, 'F16': F16, 'F14a': F14, 'F14b': F14, 'F14c': F14, 'F15a': F15, 'F15b': F15,
 }
 
 if __name__ == '__main__':
